@@ -235,7 +235,9 @@ func (g *genState) annotation() string {
 	if g.r.Chance(1, 2) {
 		return ""
 	}
-	words := []string{"get", "the", "cat", "list", "by id", "v2", "(draft)", "a-b", "x/y"}
+	// words, incl. some with white space that is NOT a blank of the annotation grammar inside them: a no-break space,
+	// a thin space, an ideographic space, a vertical tab — they are part of the text and must come out unchanged
+	words := []string{"get", "the", "cat", "list", "by id", "v2", "(draft)", "a-b", "x/y", "10\u00a0000", "a\u2009b", "wide\u3000gap", "x\vy", "é"}
 	n := 1 + g.r.Intn(3)
 	var ww []string
 	for i := 0; i < n; i++ {
